@@ -25,6 +25,7 @@ def main():
         if a.startswith('--checks'): checks = a.split('=')[1].split(',') if '=' in a else None
         if a == '--no-confirm': confirm = False
     meta = json.load(open(os.path.join(src, 'meta.json')))
+    if 'author_ran' in meta: meta['ran'] = meta['author_ran']
     prop = meta.get('property')
     checks = checks or [prop]
     patch = os.path.abspath(os.path.join(src, 'patch.diff'))
@@ -77,7 +78,7 @@ def main():
     # restore evidence of the clean tree later (caller re-runs checks); store
     dst = os.path.join(V, 'seeded', sid)
     os.makedirs(dst, exist_ok=True)
-    prev = None
+    prev = None; keep = ('note', 'breaks_on_current_tree', 'strengthening')
     try: prev = json.load(open(os.path.join(dst, 'meta.json')))
     except Exception: pass
     if prev:
@@ -85,7 +86,10 @@ def main():
         hist = prev.get('history', [])
         hist.append({'caught_by': prev.get('caught_by'), 'checks': {c: {'rc': r['rc'], 'no_failing_input_found': r.get('no_failing_input_found')} for c, r in prev.get('checks', {}).items()}})
         out['history'] = hist
-    shutil.copy(patch, os.path.join(dst, 'patch.diff')); shutil.copy(demo, os.path.join(dst, 'demo.py'))
+        for k in keep:
+            if k in prev and k not in out: out[k] = prev[k]
+    for a, b in ((patch, os.path.join(dst, 'patch.diff')), (demo, os.path.join(dst, 'demo.py'))):
+        if os.path.abspath(a) != os.path.abspath(b): shutil.copy(a, b)
     out['caught_by'] = [c for c, r in out['checks'].items() if r['rc'] == 1]
     json.dump(out, open(os.path.join(dst, 'meta.json'), 'w'), indent=1)
     print('stored', dst, 'caught_by', out['caught_by'])
